@@ -292,7 +292,8 @@ func walletAuthoring(r *evid.Run, dir string, cs int64) {
 			r.Hit("wallet-multi-round-selections", 1)
 		}
 		// sometimes really publish it, so that later requests see spent coins and change
-		if rg.Intn(3) == 0 {
+		// (a sweep-like transaction is never published: it would leave the wallet empty)
+		if !sweepLike && rg.Intn(3) == 0 {
 			if err := f.W.PublishTransaction(tx, ""); err == nil {
 				f.ApplyPublished(tx)
 				if rg.Intn(2) == 0 {
